@@ -65,6 +65,23 @@ func gen(t *rapid.T) duo.Case {
 		}
 		c.Reqs = append(c.Reqs, r)
 	}
+	earlierCancelled := rapid.IntRange(0, 5).Draw(t, "earlier-cancelled") == 0
+	if earlierCancelled {
+		// history: request 0 was paused by the responder after some blocks and then cancelled by the
+		// requestor before the others start; what it was sent must not count against them afterwards
+		c.Reqs[0].RespPauseAt, c.Reqs[0].RespGateAt, c.Reqs[0].ReqGateAt, c.Reqs[0].ReqWGateAt = rapid.IntRange(2, 4).Draw(t, "sp0"), 0, 0, 0
+		if rapid.Bool().Draw(t, "slow0") {
+			c.Reqs[0].ReqGateAt = 1 // a slow consumer: what arrives after its first block is not stored when it cancels
+		}
+		c.Ops = append(c.Ops, duo.Op{K: "start", R: 0})
+		for k := rapid.IntRange(3, 9).Draw(t, "warm0"); k > 0; k-- {
+			c.Ops = append(c.Ops, duo.Op{K: "deliver", N: rapid.IntRange(0, 1).Draw(t, "link")})
+		}
+		c.Ops = append(c.Ops, duo.Op{K: "qcancel", R: 0})
+		for k := rapid.IntRange(1, 4).Draw(t, "cool0"); k > 0; k-- {
+			c.Ops = append(c.Ops, duo.Op{K: "deliver", N: rapid.IntRange(0, 1).Draw(t, "link")})
+		}
+	}
 	switch rapid.IntRange(0, 2).Draw(t, "startmode") {
 	case 0: // all at once
 		for i := 0; i < n; i++ {
@@ -122,7 +139,19 @@ func judge(c duo.Case) *pbt.Verdict {
 		v.Label("keyed-and-default-scope-requests-together")
 	}
 	v.NonTrivial = cross
+	cancelled := map[int]bool{}
+	for _, op := range c.Ops {
+		if op.K == "qcancel" {
+			cancelled[op.R%len(c.Reqs)] = true
+		}
+	}
+	if len(cancelled) > 0 {
+		v.Label("an-earlier-request-was-cancelled-while-paused")
+	}
 	for i, spec := range c.Reqs {
+		if cancelled[i] {
+			continue // a cancelled request has no run-alone outcome to equal
+		}
 		alone := duo.Run(outerT, duo.Case{DAG: c.DAG, Sel: c.Sel, Split: c.Split, Reqs: []duo.ReqSpec{{Root: spec.Root, DedupKey: spec.DedupKey, DNS: spec.DNS}}, Ops: []duo.Op{{K: "start"}}})
 		if alone.Panic != "" {
 			return v.Failf("panic in the run-alone reference: %s", alone.Panic)
